@@ -111,7 +111,10 @@ class FitYamlWriter(YamlWriterMixin, FitDReprBase):
         if _cost_function_identifier is not None:
             _yaml_doc["cost_function"] = _cost_function_identifier
         else:
-            _yaml_doc["cost_function"] = _process_function_code_for_dump(inspect.getsource(fit._cost_function.func))
+            _cost_function_source = getattr(fit._cost_function.func, "_kafe2_source_code", None)
+            if _cost_function_source is None:
+                _cost_function_source = inspect.getsource(fit._cost_function.func)
+            _yaml_doc["cost_function"] = _process_function_code_for_dump(_cost_function_source)
 
         _yaml_doc["minimizer"] = fit._minimizer
         _yaml_doc["minimizer_kwargs"] = fit._minimizer_kwargs
